@@ -28,9 +28,10 @@ NEEDS_SERVICES = False
 T0 = 1000.0
 EPS = 1e-9
 MAX_STEPS = 400  # a normal execution needs well under 100 callbacks
+LAGS = (0, 0.5, 2.5)  # a wake-up may come this much later than its timer's due time (less / more than a window)
 
 
-def make_run_one(count, window, arrivals, victim, reduce=True):
+def make_run_one(count, window, arrivals, victim, lag_budget=0, reduce=True):
     """arrivals: tuple of arrival times; victim: None | (entrant index, cancel time)."""
     from hailtop.utils.rate_limiter import RateLimit, RateLimiter
 
@@ -39,6 +40,8 @@ def make_run_one(count, window, arrivals, victim, reduce=True):
     def run(chooser):
         loop = vloopx.XLoop(chooser, t0=T0)
         loop.ext_mode = True  # FIFO ready queue + environment-completed external events / same-instant timers (see vloopx)
+        loop.lag_choices = LAGS
+        loop.lag_budget = lag_budget
         lim = RateLimiter(RateLimit(count, window))
         ph = ['new'] * n
         admitted = []  # absolute admission times, in order
@@ -144,7 +147,7 @@ def make_run_one(count, window, arrivals, victim, reduce=True):
         for e in errs:
             if e.get('exception') is not None and not isinstance(e['exception'], asyncio.CancelledError):
                 raise RuntimeError(f'C24 harness: unexpected loop error {e.get("message")}: {e["exception"]!r}')
-        outcome = (st['ctl'], tuple(ph), tuple(rel(x) for x in admitted), st['waited'], st['livelock'])
+        outcome = (st['ctl'], tuple(ph), tuple(rel(x) for x in admitted), st['waited'], tuple(l for _, l in loop.lag_log), st['livelock'])
         return outcome, st['viol'], st['sig']
 
     def run_one(chooser):
@@ -162,7 +165,11 @@ def _explore_config(cfg):
         cnt[k] = cnt.get(k, 0) + c
 
     for k, c in r.outcomes.items():
-        ctl, ph, adm, waited, livelock = ast.literal_eval(k)
+        ctl, ph, adm, waited, lags, livelock = ast.literal_eval(k)
+        if lags:
+            bump('late-wake-up', c)
+            if waited:
+                bump('late-wake-up-with-a-waiter', c)
         if ctl:
             bump('cancel:' + ctl, c)
         if waited:
@@ -179,21 +186,21 @@ def _explore_config(cfg):
 
 
 def _size(cfg):
-    count, window, arrivals, victim = cfg
-    return (len(arrivals), 0 if victim is None else 1, sum(arrivals), count, window, arrivals, victim or (-1, -1))
+    count, window, arrivals, victim, lagb = cfg
+    return (len(arrivals), 0 if victim is None else 1, lagb, sum(arrivals), count, window, arrivals, victim or (-1, -1))
 
 
 def configs(tier):
     out = []
     if tier == 'quick':
-        plan = [((1, 2), (1.0, 2.0), n, (0, 0.5, 1.0, 2.0), (0, 1.0, 2.0)) for n in (2, 3)]
+        plan = [((1, 2), (1.0, 2.0), n, (0, 0.5, 1.0, 2.0), (0, 1.0, 2.0), 1, False) for n in (2, 3)]
     else:
-        plan = [((1, 2, 3), (1.0, 2.0), 2, (0, 0.5, 1.0, 1.5, 2.0, 2.25), (0, 0.5, 1.0, 1.5, 2.0, 2.5, 3.0)),
-                ((1, 2, 3), (1.0, 2.0), 3, (0, 0.5, 1.0, 1.5, 2.0, 2.25), (0, 0.5, 1.0, 1.5, 2.0, 2.5, 3.0)),
-                ((1, 2, 3), (1.0, 2.0), 4, (0, 0.5, 1.0, 2.0), (0, 1.0, 2.0)),
-                ((1, 2), (1.0, 2.0), 5, (0, 0.5, 1.0, 2.0), ())]
+        plan = [((1, 2, 3), (1.0, 2.0), 2, (0, 0.5, 1.0, 1.5, 2.0, 2.25), (0, 0.5, 1.0, 1.5, 2.0, 2.5, 3.0), 2, True),
+                ((1, 2, 3), (1.0, 2.0), 3, (0, 0.5, 1.0, 1.5, 2.0, 2.25), (0, 0.5, 1.0, 1.5, 2.0, 2.5, 3.0), 2, False),
+                ((1, 2, 3), (1.0, 2.0), 4, (0, 0.5, 1.0, 2.0), (0, 1.0, 2.0), 1, False),
+                ((1, 2), (1.0, 2.0), 5, (0, 0.5, 1.0, 2.0), (), 0, False)]
     seen = set()
-    for counts, windows, n, times, ctimes in plan:
+    for counts, windows, n, times, ctimes, lagb, lag_with_victim in plan:
         for arr in itertools.combinations_with_replacement(times, n):
             victims = [None]
             for t in ctimes:
@@ -204,7 +211,7 @@ def configs(tier):
             for c in counts:
                 for w in windows:
                     for v in victims:
-                        cfg = (c, w, arr, v)
+                        cfg = (c, w, arr, v, lagb if (v is None or lag_with_victim) else 0)
                         if cfg not in seen:
                             seen.add(cfg)
                             out.append(cfg)
@@ -213,9 +220,9 @@ def configs(tier):
 
 
 SELFCHECK = [
-    (1, 1.0, (0, 0), (1, 1.0)),
-    (2, 1.0, (0, 0, 0.5), None),
-    (1, 2.0, (0, 0.5, 2.0), (1, 2.0)),
+    (1, 1.0, (0, 0), (1, 1.0), 0),
+    (2, 1.0, (0, 0, 0.5), None, 1),
+    (1, 2.0, (0, 0.5, 2.0), (1, 2.0), 1),
 ]
 
 
@@ -267,11 +274,14 @@ def check(tier, seed, procs):
         'distinct_outcomes': outcomes,
         'executions_by_feature': dict(sorted(cnt.items())),
         'deviation_bound': 'unbounded (every order of timer/external-event completions at every instant over a FIFO ready queue, state-hash pruned)',
-        'bounds': ('count 1-2, window 1 s / 2 s, 2-3 entrants arriving at 0/0.5/1/2 s, at most one entrant cancelled at 0/1/2 s' if tier == 'quick' else
+        'bounds': ('count 1-2, window 1 s / 2 s, 2-3 entrants arriving at 0/0.5/1/2 s, at most one entrant cancelled at 0/1/2 s; without a '
+                   'cancellation at most one late wake-up (lag 0.5 or 2.5 s)' if tier == 'quick' else
+                   'late wake-ups (lag 0.5 / 2.5 s): <=2 per execution for 2-3 entrants (3 entrants: only without cancellation), <=1 for 4 entrants '
+                   'without cancellation; ' +
                    'count 1-3, window 1 s / 2 s; 2-3 entrants arriving at 0/0.5/1/1.5/2/2.25 s with <=1 cancelled at 0/0.5/1/1.5/2/2.5/3 s; '
                    '4 entrants arriving at 0/0.5/1/2 s with <=1 cancelled at 0/1/2 s; 5 entrants (count 1-2) arriving at 0/0.5/1/2 s, none cancelled'),
     }
-    need = ['cancel:before-arrival', 'cancel:while-sleeping-inside', 'cancel:woken-before-resume', 'cancel:after-exit',
+    need = ['late-wake-up-with-a-waiter', 'cancel:before-arrival', 'cancel:while-sleeping-inside', 'cancel:woken-before-resume', 'cancel:after-exit',
             'an-entrant-had-to-wait', 'two-or-more-waiting-together', 'two-admissions-at-one-instant']
     missing = [k for k in need if not cnt.get(k)]
     return {
@@ -286,6 +296,9 @@ def check(tier, seed, procs):
             'arrivals, the cancellation) and which of the timers due at one instant fires next, and appends that completion at the '
             'end of the ready queue; every such order is explored',
             'no order among waiting entrants is demanded; "as soon as possible" is judged for the set of waiters',
+            f'late wake-ups: when time advances to the next timer the environment may overshoot its due time by one of {LAGS} s (bounded number per '
+            'execution, see bounds); the rate is judged on the real instants at which entrants leave __aenter__; "as soon as possible" is judged '
+            'against the due time of the wake-up the limiter scheduled, so a late wake-up is never blamed on the limiter',
         ],
         # a reported violation is itself evidence that the run was not vacuous (a broken implementation may skip a feature)
         'vacuous': f'never exercised: {missing}' if missing and not violations else None,
@@ -293,6 +306,6 @@ def check(tier, seed, procs):
 
 
 def replay(obj):
-    c, w, arr, v = obj['config']
-    x = vloop.run_prefix(make_run_one(c, w, tuple(arr), None if v is None else tuple(v)), tuple(obj['choices']))
+    c, w, arr, v, lagb = obj['config']
+    x = vloop.run_prefix(make_run_one(c, w, tuple(arr), None if v is None else tuple(v), lagb), tuple(obj['choices']))
     return x.violation is None, x.violation or 'no violation'
